@@ -174,6 +174,20 @@ def bucket(ctx):
                     collisions.append((first, idx))
             else:
                 seen[h] = idx
+    # values with the same content (same canonical key) but a different representation -- e.g. the same array in
+    # C and in Fortran memory order -- must hash equally
+    by_key = {}
+    for f in files:
+        for line in f.read_text().splitlines():
+            h, idx = line.split("\t")
+            by_key.setdefault(key_of(int(idx)), {}).setdefault(h, int(idx))
+    split_keys = {k: v for k, v in by_key.items() if len(v) > 1}
+    ctx.coverage["equal_content_groups"] = sum(1 for k in by_key)
+    for k, hv in list(split_keys.items())[:50]:
+        idxs = list(hv.values())
+        x, y = _VALS[idxs[0]], _VALS[idxs[1]]
+        sig = "numpy-memory-order-changes-hash" if x[0] == y[0] == "nparray" else None
+        ctx.violation(sig, dict(part="equalcontent", u=x, v=y), f"equal content hashes differently: {x} -> {hs(x)} but {y} -> {hs(y)}")
     ctx.coverage["hashed_values"] = n
     ctx.coverage["distinct_hashes"] = len(seen)
     ctx.coverage["colliding_pairs_total"] = len(collisions)
@@ -434,6 +448,11 @@ def replay(ctx, case):
         u, v = case["u"], case["v"]
         if V.ckey(u) != V.ckey(v) and hs(u) is not None and hs(u) == hs(v):
             return f"different values hash equally: {u} and {v} -> {hs(u)}"
+        return None
+    if p == "equalcontent":
+        u, v = case["u"], case["v"]
+        if V.ckey(u) == V.ckey(v) and hs(u) != hs(v):
+            return f"equal content hashes differently: {u} -> {hs(u)} but {v} -> {hs(v)}"
         return None
     if p == "fresh":
         o1, o2 = outcome(lambda: H(V.build(case["spec"]))), outcome(lambda: H(V.build(case["spec"])))
